@@ -30,7 +30,8 @@ PROPS["C16"] = dict(
     lean_modules=["QuaiVerif.Props.C16"],
     areas=[dict(name="addr", spec_ops=("filter",), n_quick=400, n_thorough=6000, seeds_thorough=3, n_search=2000),
            dict(name="utxo", n_quick=300, n_thorough=6000, seeds_thorough=2, n_search=1500),
-           dict(name="sign", spec_ops=("sender", "sigvals"), n_quick=400, n_thorough=6000, seeds_thorough=2, n_search=1500)],
+           dict(name="sign", spec_ops=("sender", "sigvals"), n_quick=400, n_thorough=6000, seeds_thorough=2, n_search=1500),
+           dict(name="etxq", spec_ops=("commit",), n_quick=60, n_thorough=1500, seeds_thorough=2, n_search=200, timeout=3000)],
     rule="a case is one node location plus 10-40 operations over byte strings of length 0-40 biased to the location prefix byte, the 127/128 ledger "
          "boundary and all-zero addresses: every constructor/decoder (bytes, bytes20, hex, proto, scan, pubkey, CREATE, CREATE2, RLP, JSON, text), scope "
          "predicates, StateDB account creation with adversarial addresses, GrindContract; non-trivial = yields both kinds or reaches state/grind",
@@ -51,7 +52,8 @@ def state_preamble(facts, impl):
 PROPS["C12"] = dict(
     lean_modules=["QuaiVerif.Props.C12"],
     areas=[dict(name="state", n_quick=3000, n_thorough=40000, seeds_thorough=3, n_search=2500, preamble=state_preamble),
-           dict(name="lockup", spec_ops=("claim",), n_quick=600, n_thorough=12000, seeds_thorough=2, n_search=2500, preamble=lockup_preamble)],
+           dict(name="lockup", spec_ops=("claim",), n_quick=600, n_thorough=12000, seeds_thorough=2, n_search=2500, preamble=lockup_preamble),
+           dict(name="evm", spec_ops=("gasbuy",), n_quick=2500, n_thorough=20000, seeds_thorough=2, n_search=8000)],
     facts=["suicide_restores_size", "journal_reverts"],
     rule="a case is a committed pre-state (accounts with balance/nonce/code/storage, so size counters > 0) plus 5-60 journalled mutator calls "
          "with nested Snapshot/RevertToSnapshot frames (depth <= 6) on the real StateDB; after each revert the full dump and the IntermediateRoot of a copy "
@@ -184,7 +186,7 @@ PROPS["C20"] = dict(
 )
 
 PROPS["C13"] = dict(
-    lean_modules=["QuaiVerif.Props.C13", "QuaiVerif.Props.C13b", "QuaiVerif.Props.C13c", "QuaiVerif.Props.C13d"],
+    lean_modules=["QuaiVerif.Props.C13", "QuaiVerif.Props.C13b", "QuaiVerif.Props.C13c", "QuaiVerif.Props.C13d", "QuaiVerif.Props.C10"],
     areas=[dict(name="lockup", spec_ops=("claim",), n_quick=600, n_thorough=12000, seeds_thorough=3, n_search=2500, preamble=lockup_preamble), dict(name="c13chain", spec_ops=("tdisc", "split"), n_quick=4, n_thorough=40, seeds_thorough=3, n_search=10, timeout=3000),
            dict(name="c07", n_quick=2, n_thorough=12, seeds_thorough=2, n_search=6, timeout=3000)],
     facts=["lockup_undo_uses_old_delegate", "revert_restores_lockup_batch"],
@@ -243,7 +245,8 @@ PROPS["C02"] = dict(
 
 PROPS["C15"] = dict(
     lean_modules=["QuaiVerif.Props.C15"],
-    areas=[dict(name="mem", n_quick=2500, n_thorough=40000, seeds_thorough=3, n_search=8000)],
+    areas=[dict(name="mem", n_quick=2500, n_thorough=40000, seeds_thorough=3, n_search=8000),
+           dict(name="c08", spec_ops=("seal", "share"), n_quick=40, n_thorough=600, seeds_thorough=2, n_search=300, timeout=3000)],
     facts=["memory_ops"],
     rule="a case is one of: (i) a sequence of 1-4 MSTORE / MSTORE8 / MLOAD at offsets from 0 to 2^64-1 with a gas budget from 0 to 2M, whose final memory size or "
          "out-of-gas verdict is compared with the model; (ii) one of 20 memory-growing opcodes (incl. ETX) with offset / size operands from {0, small, 2^20..2^63, "
